@@ -67,7 +67,9 @@ func (p *queryParser) baseQuery() Query {
 
 func (p *queryParser) source() Query {
 	if p.MatchIf(tok.LParen) {
+		p.NestIn()
 		q := p.baseQuery()
+		p.NestOut()
 		p.Match(tok.RParen)
 		return q
 	}
